@@ -185,6 +185,10 @@ def _spec_of(rng, kind):
         return rt.rand_spec_equal_rates(rng)
     if kind == "high_ratio":
         return rt.rand_spec_high_ratio(rng)
+    if kind == "trainable":
+        return rt.rand_spec_trainable(rng)
+    if kind == "sink_tie":
+        return rt.spec_sink_tie(rng)
     return rt.rand_spec(rng)
 
 
@@ -563,6 +567,13 @@ def api_case(seed, nsteps=8):
             mid = jax.tree_util.tree_map(lambda x: x[0], traj)
             chk(f"[{tag}] first element of rollout trajectory vs run^1", mid, jr(gs))
         chk(f"[{tag}] jit(rollout) vs run^n", jax.jit(lambda x: g.rollout(x, max_steps=n, carry_only=True))(gs), a)
+        # rollout of zero steps is run^0: the state it was given, and an empty trajectory
+        chk(f"[{tag}] rollout(max_steps=0, carry_only) vs run^0", g.rollout(gs, max_steps=0, carry_only=True), gs)
+        t0 = g.rollout(gs, max_steps=0, carry_only=False)
+        lens = {int(onp.asarray(x).shape[0]) for x in jax.tree_util.tree_leaves(t0.replace(aux=type(t0.aux)({})))}
+        out["checks"] += 1
+        if lens != {0}:
+            out["diffs"].append(f"[{tag}] rollout(max_steps=0, carry_only=False) returns a trajectory of length {sorted(lens)} instead of 0")
         # G: override with the supervisor's own step result == default
         b1, ss1 = jreset(gs)
         own_ss, own_out = run.sup.step(ss1)
@@ -620,11 +631,28 @@ def sched_case(seed, nsteps=8, spec_kind="random", modes=("MCS", "GENERATIONAL",
     if spec_kind == "high_ratio":
         nsteps = min(nsteps, 5)
     lengths = [nsteps, max(2, nsteps - rng.randint(1, 3))]
-    exp = _async_experiment(rng, spec, lengths)
-    if exp is None:
-        return dict(skipped="empty record", spec=spec)
-    run, recs, dicts = exp
-    graphs_raw = base.ExperimentRecord(episodes=recs).to_graph()
+    if spec_kind == "sink_tie":
+        # generated graphs (rex.artificial): every node has all its vertices up to the horizon, also a sink that lags behind in a
+        # recording; the horizon is chosen so that a sink vertex ends exactly when the last supervisor step starts
+        from rex.artificial import generate_graphs
+
+        class _Run:
+            pass
+
+        run = _Run()
+        run.nodes = rt.build_nodes(spec)
+        run.sup = run.nodes[spec["supervisor"]]
+        r_sup = spec["nodes"][0]["rate"]
+        ts_max = rng.choice([6, 8]) / r_sup
+        graphs_raw = generate_graphs(run.nodes, ts_max, rng=jax.random.PRNGKey(spec["seed"] % 1000), num_episodes=rng.choice([1, 2]))
+        lengths = list(range(int(onp.asarray(graphs_raw.vertices[spec["supervisor"]].seq).shape[0])))
+        dynamic = False
+    else:
+        exp = _async_experiment(rng, spec, lengths)
+        if exp is None:
+            return dict(skipped="empty record", spec=spec)
+        run, recs, dicts = exp
+        graphs_raw = base.ExperimentRecord(episodes=recs).to_graph()
     out = dict(spec=spec, feats=sorted(rt.spec_features(spec)), instances=[], dynamic=[])
     init_out = {n: int(run.nodes[n].init_output().y) for n in names}
     for mode in modes:
@@ -637,7 +665,19 @@ def sched_case(seed, nsteps=8, spec_kind="random", modes=("MCS", "GENERATIONAL",
             auto = rt.buffer_sizes_list(g, names)
             for e in range(len(lengths)):
                 inst = rt.sched_instance(g, names, spec["supervisor"], prune, e)
-                out["instances"].append(dict(mode=mode, prune=prune, episode=e, inst=inst, sizes=auto, raw_sizes={k: [int(x) for x in v] for k, v in g._buffer_sizes.items()}))
+                # independent window oracle: the windowed graph must hold, for every vertex, the last W consumed messages of the raw graph
+                wbad = []
+                exp = rt.expected_windows(spec, graphs_raw, e)
+                wg = g._windowed_graphs
+                for (dst, src), per in exp.items():
+                    got = onp.asarray(wg.vertices[dst].windows[src].seq)[e]
+                    for k, want in per.items():
+                        have = [max(int(x), -1) for x in got[k]]
+                        if have != want:
+                            wbad.append(f"vertex {dst}[{k}]: window of {src} is {have}, the last {len(want)} consumed messages of the recorded graph are {want}")
+                            break
+                out["instances"].append(dict(mode=mode, prune=prune, episode=e, inst=inst, sizes=auto, raw_sizes={k: [int(x) for x in v] for k, v in g._buffer_sizes.items()},
+                                             window_mismatches=wbad[:4]))
             if dynamic:
                 extra = {n: int(max(g._buffer_sizes[n]) + rng.randint(0, 3)) for n in g._buffer_sizes if len(g._buffer_sizes[n]) > 0 and rng.random() < 0.6}
                 pad = rng.choice([0, 1, 3])
